@@ -1,6 +1,6 @@
 SPECIFICATION GSpec
 CONSTANTS
-  Addr <- GAddr
+  Addr <- GAddr3
   Roots <- GRoots
   MaxPin = 3
 INVARIANT EmitFull
